@@ -44,7 +44,7 @@ Definition ix_eqb (x y : ix) : bool :=
   | _, _ => false
   end.
 Definition kind_eqb (k k' : akind) : bool :=
-  match k, k' with AElem, AElem | AAppend, AAppend | AOpaque, AOpaque => true | _, _ => false end.
+  match k, k' with AElem, AElem | AAppend, AAppend | AOpaque, AOpaque | AEscape, AEscape => true | _, _ => false end.
 Definition shape_eqb (a b : access) : bool :=
   Bool.eqb (a_write a) (a_write b) && Bool.eqb (a_crit a) (a_crit b) && kind_eqb (a_kind a) (a_kind b) &&
   ix_eqb (a_i a) (a_i b) && ix_eqb (a_j a) (a_j b).
